@@ -7,6 +7,12 @@ def run(tier, seed):
     run = Run("C12", tier, seed)
     build_harness()
     th = tier == "thorough"
+    # Kruskal as coded, with raw indices (vacancies) vs positions in the element stream and every tie order of the heap
+    d = os.path.join(SPEC, "algo")
+    base = open(os.path.join(d, "MCKruskalIx.cfg")).read()
+    open(os.path.join(d, "out_MCKruskalIx.cfg"), "w").write(base.replace("MaxEdges = 4", "MaxEdges = %d" % (6 if th else 4)).replace("MaxW = 2", "MaxW = %d" % (3 if th else 2)))
+    run.add_mc("KruskalIx B=4 (index spaces, all tie orders)", tlc("algo/KruskalIx", "out_MCKruskalIx.cfg", workers=10, timeout=2400, tag="c12kx"))
+    os.remove(os.path.join(d, "out_MCKruskalIx.cfg"))
     recs, matrix = sweep(run, "C12", seed, 3, 1500 if th else 150, 6 if th else 5)
     run.extra["applicability_matrix"] = matrix
     mid = recs[len(recs) // 2]
